@@ -38,7 +38,7 @@ func inv5Structural(c *Ctx, fn *ssa.Function, loops []*Loop, loopOf map[*types.V
 			continue
 		}
 		// the collector call: collector(node, fresh set)
-		var set *ssa.MakeMap
+		var set ssa.Value
 		var collector *ssa.Function
 		var callIn ssa.Instruction
 		for _, ci := range callsIn(fn) {
@@ -51,23 +51,25 @@ func inv5Structural(c *Ctx, fn *ssa.Function, loops []*Loop, loopOf map[*types.V
 			if callee == nil || callee.Pkg != fn.Pkg || len(args) != 2 || !isRangeValueOf(args[0], L) {
 				continue
 			}
-			if mm, ok := args[1].(*ssa.MakeMap); ok && L.Blocks[mm.Block()] {
-				set, collector, callIn = mm, callee, in
+			if v := ci.Value(); v != nil {
+				if _, isMap := v.Type().Underlying().(*types.Map); isMap {
+					set, collector, callIn = v, callee, in
+				}
 			}
 		}
 		if collector == nil {
-			c.Fail(name, p.InstrPos(L.Header.Instrs[0]), "inside the loop over "+snap.Name()+" no collector is called with the node and a set made for this node: the variables below the node are not determined")
+			c.Fail(name, p.InstrPos(L.Header.Instrs[0]), "inside the loop over "+snap.Name()+" no collector is called with the node that returns the set of the variables below it: the variables below the node are not determined")
 			continue
 		}
 		roots = append(roots, collector)
 		var M *Loop
 		for _, l := range loops {
-			if l != L && L.Blocks[l.Header] && rangeOperand(l) == ssa.Value(set) {
+			if l != L && L.Blocks[l.Header] && rangeOperand(l) == set {
 				M = l
 			}
 		}
 		if M == nil {
-			c.Fail(name, p.InstrPos(callIn), "the set that "+fnName(collector)+" fills is not ranged over: the collected variables are not indexed")
+			c.Fail(name, p.InstrPos(callIn), "the set that "+fnName(collector)+" returns is not ranged over: the collected variables are not indexed")
 			continue
 		}
 		if !callIn.Block().Dominates(M.Header) {
@@ -179,8 +181,10 @@ func inv5Structural(c *Ctx, fn *ssa.Function, loops []*Loop, loopOf map[*types.V
 			inM := false
 			for _, l := range loops {
 				if l.Blocks[b] {
-					if _, isSet := rangeOperand(l).(*ssa.MakeMap); isSet {
-						inM = true
+					if call, isSet := rangeOperand(l).(*ssa.Call); isSet {
+						if callee, _ := calleeOf(call); callee != nil && callee.Pkg == fn.Pkg {
+							inM = true
+						}
 					}
 				}
 			}
@@ -321,7 +325,16 @@ func inv5Key(c *Ctx, key ssa.Value, M *Loop, varSnap *types.Var, idxFields map[*
 	return true, okOf(call), ""
 }
 
-// inv5Collectors: see inv5Structural.
+// inv5Collectors: see inv5Structural. A collector has the form
+//
+//	func (e *T) collector(sets memo) set {
+//		if e == nil { return nil }
+//		if set, ok := sets[e]; ok { return set }
+//		set := make(set); [set[e] = struct{}{}]; set.add(e.child.collector(sets)) ...; sets[e] = set; return set }
+//
+// and is decided by: what it returns (nil for a nil receiver, the remembered set on a hit, its own fresh set otherwise),
+// what it remembers (its own set under its own receiver, nothing else), and that the set of every variable-bearing
+// child field is added to its own set on every other path.
 func inv5Collectors(c *Ctx, roots []*ssa.Function) {
 	p := c.P
 	variable := p.Named("ast", "Variable")
@@ -368,7 +381,7 @@ func inv5Collectors(c *Ctx, roots []*ssa.Function) {
 		}
 		// a child is a node of the syntax graph (ast.Node); the working memory and the data context every node points
 		// to are not below it
-		if nodeIface != nil && !types.Implements(types.NewPointer(n), nodeIface) {
+		if !types.Implements(types.NewPointer(n), nodeIface) {
 			return nil
 		}
 		return n
@@ -411,6 +424,48 @@ func inv5Collectors(c *Ctx, roots []*ssa.Function) {
 		n, _ := t.(*types.Named)
 		return n
 	}
+	// the adder: a function (into, from) that stores every key of from into into
+	adders := map[*ssa.Function]bool{}
+	isAdder := func(f *ssa.Function) bool {
+		if f == nil || f.Blocks == nil || len(f.Params) != 2 {
+			return false
+		}
+		if ok, done := adders[f]; done {
+			return ok
+		}
+		ok := false
+		for _, l := range naturalLoops(f) {
+			if rangeOperand(l) != ssa.Value(f.Params[1]) {
+				continue
+			}
+			headerFirst := true
+			for _, r := range returnsOf(f) {
+				if !l.Header.Dominates(r.Block()) {
+					headerFirst = false
+				}
+			}
+			for b := range l.Blocks {
+				for _, in := range b.Instrs {
+					mu, isUpd := in.(*ssa.MapUpdate)
+					if !isUpd || mu.Map != ssa.Value(f.Params[0]) || !isRangeKeyOf(mu.Key, l) {
+						continue
+					}
+					every := true
+					for _, bs := range l.Backs {
+						if !b.Dominates(bs) {
+							every = false
+						}
+					}
+					if every && headerFirst {
+						ok = true
+					}
+				}
+			}
+		}
+		adders[f] = ok
+		c.Check(ok, "IndexVariables / "+fnName(f)+" adds every element of the other set", p.Pos(f.Pos()), "ranges over its argument and stores every key into its receiver, on every iteration and before every return", "the function the collectors use to add a child's set to their own does not store every element of the set it is given")
+		return ok
+	}
 	var work []*types.Named
 	done := map[*types.Named]bool{}
 	for _, r := range roots {
@@ -424,36 +479,88 @@ func inv5Collectors(c *Ctx, roots []*ssa.Function) {
 		T := work[0]
 		work = work[1:]
 		col := p.Method("ast", T.Obj().Name(), method)
-		if col == nil || col.Blocks == nil || len(col.Params) != 2 {
-			c.Fail("IndexVariables / "+T.Obj().Name()+" has a collector", p.Pos(T.Obj().Pos()), "a variable can be reached through a node of type "+T.Obj().Name()+", but the type has no method "+method+"(set): the variables below such a node are not indexed")
+		if col == nil || col.Blocks == nil || len(col.Params) != 2 || col.Signature.Results().Len() != 1 {
+			c.Fail("IndexVariables / "+T.Obj().Name()+" has a collector", p.Pos(T.Obj().Pos()), "a variable can be reached through a node of type "+T.Obj().Name()+", but the type has no method "+method+"(sets) that returns a set: the variables below such a node are not indexed")
 			continue
 		}
 		c.Touch(fnName(col))
-		crecv, cset := ssa.Value(col.Params[0]), ssa.Value(col.Params[1])
-		exemptEdge := func(b *ssa.BasicBlock, si int) bool {
+		crecv, cmemo := ssa.Value(col.Params[0]), ssa.Value(col.Params[1])
+		isRecv := func(v ssa.Value) bool {
+			if mi, ok := v.(*ssa.MakeInterface); ok {
+				v = mi.X
+			}
+			return v == crecv
+		}
+		memoHit := func(v ssa.Value, idx int) bool {
+			e, ok := v.(*ssa.Extract)
+			if !ok || e.Index != idx {
+				return false
+			}
+			lk, ok := e.Tuple.(*ssa.Lookup)
+			return ok && lk.X == cmemo && isRecv(lk.Index)
+		}
+		nilRecvEdge := func(b *ssa.BasicBlock, si int) bool {
 			iff, ok := b.Instrs[len(b.Instrs)-1].(*ssa.If)
 			if !ok {
 				return false
 			}
-			if kind, s, ok := condOn(iff.Cond, func(v ssa.Value) bool { return v == crecv }); ok && kind == "nil" && si == s {
+			kind, s, ok := condOn(iff.Cond, func(v ssa.Value) bool { return v == crecv })
+			return ok && kind == "nil" && si == s
+		}
+		exemptEdge := func(b *ssa.BasicBlock, si int) bool {
+			if nilRecvEdge(b, si) {
 				return true
 			}
-			kind, s, ok := condOn(iff.Cond, func(x ssa.Value) bool {
-				e, ok := x.(*ssa.Extract)
-				if !ok || e.Index != 1 {
-					return false
-				}
-				lk, ok := e.Tuple.(*ssa.Lookup)
-				return ok && lk.X == cset && lk.Index == crecv
-			})
+			iff, ok := b.Instrs[len(b.Instrs)-1].(*ssa.If)
+			if !ok {
+				return false
+			}
+			kind, s, ok := condOn(iff.Cond, func(x ssa.Value) bool { return memoHit(x, 1) })
 			return ok && kind == "bool" && si == s
 		}
+		// what it returns
 		isRet := map[ssa.Instruction]bool{}
+		var own ssa.Value
+		retOK, retWhy := true, ""
 		for _, r := range returnsOf(col) {
-			if !edgesDominate(col, r, exemptEdge) {
-				isRet[r] = true
+			res := r.Results[0]
+			if edgesDominate(col, r, exemptEdge) {
+				// nothing is below a nil node; a remembered node is answered with what was remembered
+				if !memoHit(res, 0) && !(isNilConst(res) && edgesDominate(col, r, nilRecvEdge)) {
+					retOK, retWhy = false, "on the way out for a nil receiver or a remembered node ("+p.InstrPos(r)+") it returns neither nil for the nil receiver nor the remembered set"
+				}
+				continue
+			}
+			isRet[r] = true
+			mm, ok := res.(*ssa.MakeMap)
+			if !ok || (own != nil && own != ssa.Value(mm)) {
+				retOK, retWhy = false, "the set returned at "+p.InstrPos(r)+" is not the one set made by this call"
+				continue
+			}
+			own = mm
+		}
+		if own == nil {
+			retOK = false
+			if retWhy == "" {
+				retWhy = "no path returns a set made by the call"
 			}
 		}
+		c.Check(retOK, "IndexVariables / "+fnName(col)+" returns its own set, or the remembered one of the same node", p.Pos(col.Pos()), "nil for a nil receiver, sets[receiver] on a hit, the fresh set otherwise", "the collector "+retWhy+": a node is indexed under the variables of another set")
+		if own == nil {
+			continue
+		}
+		// what it remembers
+		memoOK := ""
+		for _, b := range col.Blocks {
+			for _, in := range b.Instrs {
+				if mu, ok := in.(*ssa.MapUpdate); ok && mu.Map == cmemo {
+					if !isRecv(mu.Key) || mu.Value != own {
+						memoOK = p.InstrPos(mu)
+					}
+				}
+			}
+		}
+		c.Check(memoOK == "", "IndexVariables / "+fnName(col)+" remembers its own set under its own receiver only", p.Pos(col.Pos()), "every store into the memo is sets[receiver] = own set", "the store at "+memoOK+" remembers a set under another node, or another set under this node: a later visit of that node is answered with the wrong variables")
 		cloops := naturalLoops(col)
 		// passes reports whether every return (other than the exempt ones) is reached only after the instruction, or by
 		// way of "the field is nil" when a field is given. For an instruction in a loop over the field: only after the
@@ -495,12 +602,12 @@ func inv5Collectors(c *Ctx, roots []*ssa.Function) {
 			added := false
 			for _, b := range col.Blocks {
 				for _, in := range b.Instrs {
-					if mu, ok := in.(*ssa.MapUpdate); ok && mu.Map == cset && mu.Key == crecv && passes(mu, nil, nil) {
+					if mu, ok := in.(*ssa.MapUpdate); ok && mu.Map == own && mu.Key == crecv && passes(mu, nil, nil) {
 						added = true
 					}
 				}
 			}
-			c.Check(added, "IndexVariables / "+fnName(col)+" adds the variable itself", p.Pos(col.Pos()), "set[receiver] is stored on every path but nil receiver / already in the set", "the collector of Variable does not put the variable itself into the set on every path: nodes that mention the variable are not indexed under it, so an assignment to it does not reset them")
+			c.Check(added, "IndexVariables / "+fnName(col)+" adds the variable itself", p.Pos(col.Pos()), "set[receiver] is stored on every path but nil receiver / remembered node", "the collector of Variable does not put the variable itself into its set on every path: nodes that mention the variable are not indexed under it, so an assignment to it does not reset them")
 		}
 		st := T.Underlying().(*types.Struct)
 		for i := 0; i < st.NumFields(); i++ {
@@ -520,7 +627,7 @@ func inv5Collectors(c *Ctx, roots []*ssa.Function) {
 			for _, ci := range callsIn(col) {
 				callee, _ := calleeOf(ci)
 				args := ci.Common().Args
-				if callee == nil || ucol == nil || callee != ucol || len(args) != 2 || args[1] != cset {
+				if callee == nil || ucol == nil || callee != ucol || len(args) != 2 || args[1] != cmemo || ci.Value() == nil {
 					continue
 				}
 				in := ci.(ssa.Instruction)
@@ -535,17 +642,33 @@ func inv5Collectors(c *Ctx, roots []*ssa.Function) {
 				} else {
 					continue
 				}
-				if passes(in, l, f) {
-					found = true
-				} else {
-					conditional = p.InstrPos(in)
+				// the child's set is added to the own set
+				for _, r := range *ci.Value().Referrers() {
+					ac, ok := r.(ssa.CallInstruction)
+					if !ok {
+						continue
+					}
+					adder, _ := calleeOf(ac)
+					aargs := ac.Common().Args
+					if adder == nil || len(aargs) != 2 || aargs[0] != own || aargs[1] != ssa.Value(ci.Value()) || !isAdder(adder) {
+						continue
+					}
+					ain := ac.(ssa.Instruction)
+					if l != nil && innermostLoopOf(cloops, ain.Block()) != l {
+						continue
+					}
+					if passes(ain, l, f) {
+						found = true
+					} else {
+						conditional = p.InstrPos(ain)
+					}
 				}
 			}
-			msg := "the collector never calls " + method + " on the field " + f.Name() + " (type " + U.Obj().Name() + ", through which a variable can be reached)"
+			msg := "the set of the field " + f.Name() + " (type " + U.Obj().Name() + ", through which a variable can be reached) is never added to the collector's own set"
 			if conditional != "" {
-				msg = "the call of " + method + " on the field " + f.Name() + " at " + conditional + " is not on every path (other than nil receiver / variable already in the set)"
+				msg = "the set of the field " + f.Name() + " is added at " + conditional + ", but not on every path (other than nil receiver / remembered node / nil field)"
 			}
-			c.Check(found, name, p.Pos(col.Pos()), "called with the same set on every path but nil receiver / already in the set", msg+": a node that reaches a variable only through this field is not indexed under it, and an assignment to the variable leaves the node's remembered value in place")
+			c.Check(found, name, p.Pos(col.Pos()), "the field's set, from the field type's collector with the same memo, is added to the own set on every path but nil receiver / remembered node", msg+": a node that reaches a variable only through this field is not indexed under it, and an assignment to the variable leaves the node's remembered value in place")
 		}
 	}
 	var names []string
